@@ -975,14 +975,15 @@ pub fn suite_fault(out: &mut Out, tier: &str, rng: &mut Rng) {
         let i = ids(rng);
         emit(out, ctl(&mk(0), i), ctl(&mk(v), i), "UnsupportedVendorId", v as u32, &strict);
     }
-    for _ in 0..counts(tier, 40, 3000) {
-        // offset size beyond what remains
-        let nd = rng.range(1, 12) as usize;
+    let n_off = counts(tier, 40, 3000);
+    for k in 0..(24 + n_off) {
+        // offset size beyond what remains (every payload size 1..12 at least twice, then random)
+        let nd = if k < 24 { 1 + (k / 2) as usize } else { rng.range(1, 12) as usize };
         let data = rng.bytes(nd);
         let any = rng.range(nd as u64 + 1, 65535) as u16;
         let bad = *rng.pick(&[nd as u16 + 1, nd as u16 + 2, 255, 256, 0x7fff, 0xffff, any]);
         let prio = rng.bool();
-        let nsnr = if rng.bool() { Some((rng.u16(), rng.u16())) } else { None };
+        let nsnr = if (k < 24 && k % 2 == 1) || (k >= 24 && rng.bool()) { Some((rng.u16(), rng.u16())) } else { None };
         let mk = |n: u16| enc_data_raw(0, 2, prio, None, 5, 6, nsnr, Some((n, vec![])), &data);
         emit(out, mk(0), mk(bad), "InvalidOffset", bad as u32, &strict);
     }
